@@ -97,6 +97,7 @@ static void run_case(const kase *k, int e){
   matrix *m, *t; dvector *avg, *sc;
   NewMatrix(&m, r, c); NewMatrix(&t, r, c); initDVector(&avg); initDVector(&sc);
   int rowidx[MAXR]; for(int i = 0; i < r; i++) rowidx[i] = i;
+  int colbad[MAXC] = {0};
   for(int i = 0; i < r; i++) for(int j = 0; j < c; j++) m->data[i][j] = k->X[i][j] == MISS ? (double)MISS : (double)k->X[i][j] * u;
   /* 1. fit */
   MatrixPreprocess(m, k->type, avg, sc, t);
@@ -107,6 +108,7 @@ static void run_case(const kase *k, int e){
     for(int j = 0; j < c; j++){
       int bad = check_fit_col(k, e, u, j, r, rowidx, avg, sc, t, j, 0, "");
       if(!bad) continue;
+      colbad[j] = 1;
       /* attribute: if the column holds a MISSING cell and the same column with that row deleted is transformed correctly,
        * the failure is an influence of the missing-coded cell (theorem ThMissing: the exact result is the same) */
       int mi = -1; for(int i = 0; i < r; i++) if(k->X[i][j] == MISS) mi = i;
@@ -145,6 +147,7 @@ static void run_case(const kase *k, int e){
     MatrixPreprocess(y, k->type, avg, sc, t3);
     if(t3->row != 2 || t3->col != (size_t)c) fail(k, e, "apply", -1, -1, (double)t3->row, 2.0, "apply path returns a matrix of the wrong shape for new rows");
     else for(int a = 0; a < 2; a++) for(int j = 0; j < c; j++){
+      if(colbad[j]) continue;                   /* the fit of this column was already reported */
       colexp ce = col_expect(k, j, u);
       double got = t3->data[a][j];
       double slack = 1e-13 * (ce.maxabs + fabs(y->data[a][j]));
